@@ -16,6 +16,7 @@ import (
 	"runtime"
 	"runtime/debug"
 	"runtime/metrics"
+	"strings"
 
 	"gitlab.com/gomidi/midi/v2/internal/verifh/engine"
 	"gitlab.com/gomidi/midi/v2/internal/verifh/faultio"
@@ -696,6 +697,90 @@ func twoPrefixes() {
 	}
 }
 
+// canary: a valid file that holds every channel status with data bytes from
+// {00, 01, 40, 7F}, every meta type and a few sysex packets is read after a
+// family of malformed inputs, in the same process: whatever the reader went
+// through before (and may remember in package-level state), the valid file
+// must read as the reference parser reads it, event for event.
+var canaryFile []byte
+var canaryWant string
+
+func canaryBuild() {
+	var body []byte
+	for st := 0x80; st <= 0xEF; st++ {
+		for _, d1 := range []byte{0x00, 0x01, 0x40, 0x7F} {
+			for _, d2 := range []byte{0x00, 0x01, 0x40, 0x7F} {
+				body = append(body, 0x01, byte(st), d1)
+				if st < 0xC0 || st >= 0xE0 {
+					body = append(body, d2)
+				}
+			}
+		}
+	}
+	for typ := 0; typ < 0x80; typ++ {
+		if typ != 0x2F {
+			body = append(body, 0x00, 0xFF, byte(typ), 0x02, byte(typ), 0x01)
+		}
+	}
+	body = append(body, 0x00, 0xF0, 0x03, 0x01, 0x02, 0xF7, 0x00, 0xF7, 0x02, 0xF3, 0x01, 0x00, 0xFF, 0x2F, 0x00)
+	canaryFile = append(hdr(0, 1, 96), refsmf.Chunk("MTrk", body)...)
+}
+
+func canaryRead() string {
+	s, err := smf.ReadFrom(bytes.NewReader(canaryFile))
+	if err != nil {
+		return "error: " + err.Error()
+	}
+	var sb strings.Builder
+	for _, t := range s.Tracks {
+		for _, e := range sp.FromTrack(t) {
+			fmt.Fprintf(&sb, "%d:%X ", e.Delta, e.Msg)
+		}
+	}
+	return sb.String()
+}
+
+// withCanary runs f between two readings of the canary file.
+func withCanary(family string, f func()) {
+	if canaryFile == nil {
+		canaryBuild()
+		exp, err := refsmf.Parse(canaryFile, refsmf.Strict)
+		if err != nil {
+			ctx.Guard(false, "canary file is not valid: %v", err)
+		}
+		var sb strings.Builder
+		for _, t := range exp.Tracks {
+			for _, e := range t {
+				fmt.Fprintf(&sb, "%d:%X ", e.Delta, e.Msg)
+			}
+		}
+		canaryWant = sb.String()
+	}
+	// (the canary is not read before the family: whatever is remembered from the
+	// first reading of a message would then come from the valid file)
+	f()
+	ctx.Eval()
+	ctx.Add("canary_readings", 1)
+	if got := canaryRead(); got != canaryWant {
+		i := 0
+		for i < len(got) && i < len(canaryWant) && got[i] == canaryWant[i] {
+			i++
+		}
+		lo := i - 30
+		if lo < 0 {
+			lo = 0
+		}
+		report2("canary:changed-by-earlier-reads:"+family, fmt.Sprintf("after the inputs of family %s were read in this process, the valid canary file reads differently: ...%s (expected ...%s)", family, clipS(got[lo:], 80), clipS(canaryWant[lo:], 80)))
+	}
+}
+
+func clipS(s string, n int) string {
+	if len(s) > n {
+		return s[:n]
+	}
+	return s
+}
+
 func report2(sig, what string) {
 	ctx.Violation(sig, map[string]interface{}{"kind": "deep", "what": what})
 }
@@ -709,10 +794,10 @@ func main() {
 	ctx.Assume("the random / coverage-guided part of the quantifier is replaced by the exhaustive bounded spaces 1-3 (DESIGN.md C05)")
 	ctx.Assume("allocation is measured with runtime/metrics (/gc/heap/allocs:bytes: large objects immediately, small ones at span granularity) in single-threaded worker processes; a suspicious case is re-measured exactly with MemStats.TotalAlloc before it is reported; bound 64 KiB + 256 x len(input)")
 	maxLen := ctx.Pick(5, 6)
-	ctx.Jobs("strings-track-body", len(alphabet), func(j int) { strings1(j, maxLen) })
-	ctx.Jobs("strings-whole-file", len(alphabet)+7, func(j int) { strings2(j, 4) })
-	ctx.Jobs("header-fields", 16, func(j int) { headerFields(j, 16) })
-	ctx.Jobs("substitutions", 32, func(j int) { substitutions(j, 32) })
+	ctx.Jobs("strings-track-body", len(alphabet), func(j int) { withCanary("strings-track-body", func() { strings1(j, maxLen) }) })
+	ctx.Jobs("strings-whole-file", len(alphabet)+7, func(j int) { withCanary("strings-whole-file", func() { strings2(j, 4) }) })
+	ctx.Jobs("header-fields", 16, func(j int) { withCanary("header-fields", func() { headerFields(j, 16) }) })
+	ctx.Jobs("substitutions", 32, func(j int) { withCanary("substitutions", func() { substitutions(j, 32) }) })
 	ctx.Jobs("deep-inputs", 1, func(int) { deepInputs() })
 	ctx.Jobs("amplification", 1, func(int) { amplification() })
 	ctx.Jobs("two-prefixes", 1, func(int) { twoPrefixes() })
